@@ -380,7 +380,12 @@ func (s *sim) ensureFinalizers() {
 	}
 }
 
-func (s *sim) launch(name string) bool {
+func (s *sim) launch(name string) bool { return s.launchOpt(name, true) }
+
+// launchOpt: nodeFirst = the Node's informer event is delivered before the NodeClaim's (the usual order here); with
+// nodeFirst false the Node event is left to the settle phase, so the NodeClaim delivery is the first to create the
+// state node (cluster.UpdateNodeClaim then reads the clock between Cleanup and UpdateNodeClaim on the NodePoolState).
+func (s *sim) launchOpt(name string, nodeFirst bool) bool {
 	nc := &v1.NodeClaim{ObjectMeta: metav1.ObjectMeta{Name: name}}
 	if !s.w.Get(nc) || nc.Status.ProviderID != "" || !nc.DeletionTimestamp.IsZero() {
 		return false
@@ -405,7 +410,9 @@ func (s *sim) launch(name string) bool {
 		v1.NodeInitializedLabelKey: "true"})
 	world.SetNodeReady(n, true, s.w.Clock.Now())
 	s.w.EnvCreate(n)
-	s.deliverNode(n.Name)
+	if nodeFirst {
+		s.deliverNode(n.Name)
+	}
 	return true
 }
 
@@ -417,6 +424,43 @@ func (s *sim) deliver(name string) {
 	s.w.Emit(trace.M{"e": "Begin", "controller": "state.nodeclaim", "object": name})
 	_, err := s.ncInf.Reconcile(s.ctx, reconcile.Request{NamespacedName: types.NamespacedName{Name: name}})
 	s.w.Emit(trace.M{"e": "End", "controller": "state.nodeclaim", "err": errStr(err), "panic": false})
+}
+
+// deliverWithWindow delivers the NodeClaim's provider-id change and uses the clock read that cluster.UpdateNodeClaim
+// performs after NodePoolState.Cleanup and before NodePoolState.UpdateNodeClaim (MarkUnconsolidated -> clock.Now())
+// as a scheduling point: at that instant a static provisioning reconcile is started and runs (count, reserve) until
+// it is held at its first API call; then the informer goes on.
+func (s *sim) deliverWithWindow(name string) {
+	fired := false
+	s.w.Clock.SetOnNow(func() {
+		if fired || !s.procDone("prov") {
+			return
+		}
+		snap := Snapshot(s.cluster.NodePoolState, ctlPool, s.idx)
+		tracked := append(append(append([]int{}, snap["act"].([]int)...), snap["del"].([]int)...), snap["pend"].([]int)...)
+		if lo.Contains(tracked, s.idx(name)) {
+			return // Cleanup has not run (yet): not the window
+		}
+		fired = true
+		s.w.Clock.SetOnNow(nil)
+		s.w.Emit(trace.M{"e": "Window", "in": "cluster.UpdateNodeClaim", "claim": name})
+		res0 := s.snapRes()
+		np := s.pool()
+		s.start("prov", func() error { _, err := s.prov.Reconcile(s.ctx, np); return err })
+		s.waitFor(func() bool {
+			if s.procDone("prov") {
+				return true
+			}
+			n := s.nWaiting(isProvLike(actorProv))
+			return n > 0 && n >= s.snapRes()-res0
+		}, 1500*time.Millisecond)
+		s.mem("Window")
+	})
+	s.deliver(name)
+	s.w.Clock.SetOnNow(nil)
+	if !fired {
+		s.w.Emit(trace.M{"e": "Skip", "a": "I_Deliver", "why": "no-window"})
+	}
 }
 
 func errStr(err error) string {
@@ -614,7 +658,11 @@ func (s *sim) step(st Step) error {
 			s.skip(st, "no-such-claim")
 			return nil
 		}
-		s.deliver(name)
+		if st.What == "relaunch-window" {
+			s.deliverWithWindow(name)
+		} else {
+			s.deliver(name)
+		}
 	case "GC":
 		name, ok := s.name(st.N)
 		if !ok {
@@ -624,7 +672,7 @@ func (s *sim) step(st Step) error {
 		_, _ = s.gc.Reconcile(s.ctx, reconcile.Request{NamespacedName: types.NamespacedName{Name: name}})
 	// ---- environment
 	case "Launch":
-		if name, ok := s.name(st.N); !ok || !s.launch(name) {
+		if name, ok := s.name(st.N); !ok || !s.launchOpt(name, st.What != "claim-event-first") {
 			s.skip(st, "not-launchable")
 		}
 	case "Delete":
@@ -714,6 +762,7 @@ func (s *sim) settle(tag string) {
 			}
 		}
 		for _, n := range all {
+			s.deliverNode(nodeNameFor(n))
 			s.deliver(n)
 			_, _ = s.gc.Reconcile(s.ctx, reconcile.Request{NamespacedName: types.NamespacedName{Name: n}})
 		}
